@@ -17,32 +17,12 @@
     an attribute value and moved into element content, "]]" and ">" in adjacent Text nodes, both
     quotation marks in one attribute value, a document without element. *)
 From Coq Require Import List NArith Bool Lia.
-From XmlRs Require Import Base.CPred Spec.XmlChars Model.Store Model.DomOps Proofs.DomBase Proofs.DomOpsInv.
+From XmlRs Require Import Base.CPred Spec.XmlChars Model.Store Model.StoreCheck Model.PrintableCheck Model.DomOps Proofs.DomBase Proofs.DomOpsInv Proofs.DomCheck.
 From XmlRs Require Model.CharData.
 Import ListNotations.
 Open Scope N_scope.
 
-(** ** the invariant *)
-Definition text_lex (d : str) : bool :=
-  forallb (fun c => CharData.is_xml_char c && negb (c =? 60) && negb (c =? 38)) d.
-
-Definition pi_ok (d : str) : bool :=
-  forallb CharData.is_xml_char d && negb (CharData.has_sub [63; 62] d).
-
-Definition qname_ok (p : option str) (l : str) : bool :=
-  match p with Some x => is_NCName x | None => true end && is_NCName l.
-
-Definition item_ok (it : item) : bool :=
-  match ikind it with
-  | KTx => text_lex (idata it)
-  | KCm => CharData.check_comment (idata it)
-  | KCd => CharData.check_cdata (idata it)
-  | KPi => is_Name (ilocal it) && pi_ok (idata it)
-  | KEl | KAt => qname_ok (iprefix it) (ilocal it)
-  | KEr => is_Name (ilocal it)
-  | _ => true
-  end.
-
+(** ** the invariant ([item_ok]: Model/PrintableCheck.v) *)
 Definition Printable (s : store) : Prop := forall i it, get s i = Some it -> item_ok it = true.
 Definition WPrintable (w : world) : Prop := WP Printable w.
 
@@ -513,4 +493,12 @@ Proof.
     destruct Ho as [_ Ho]. apply negb_true_iff in Ho. exact Ho.
   - unfold CharData.check_comment in Ho. apply andb_true_iff in Ho. destruct Ho as [Ho H2].
     apply andb_true_iff in Ho. destruct Ho as [_ H1]. apply negb_true_iff in H1. apply negb_true_iff in H2. tauto.
+Qed.
+
+(** ** the executable check is sound: what the model driver evaluates on every initial store *)
+Theorem printable_b_sound : forall l nx decl root, printable_b l = true -> Printable (store_of_list l nx decl root).
+Proof.
+  intros l nx decl root H i it G. unfold store_of_list, get in G. cbn [items] in G.
+  destruct (lookup_in l i it G) as [j [_ [Hin _]]]. unfold printable_b in H. rewrite forallb_forall in H.
+  exact (H (j, it) Hin).
 Qed.
